@@ -16,6 +16,9 @@ pub struct InputEvent {
     line: usize,
     indent: usize,
     pub alt_idx: Option<usize>,
+    /// The attribute values of this (start) event have been evaluated already,
+    /// by a `reuse` which instantiates an element with content.
+    pub evaluated: bool,
 }
 
 impl InputEvent {
@@ -102,6 +105,7 @@ impl From<Event<'_>> for InputEvent {
             line: 0,
             indent: 0,
             alt_idx: None,
+            evaluated: false,
         }
     }
 }
@@ -128,6 +132,7 @@ impl From<&[InputEvent]> for InputList {
                     line: v.line,
                     indent: v.indent,
                     alt_idx: v.alt_idx,
+                    evaluated: v.evaluated,
                 })
                 .collect(),
         }
@@ -226,6 +231,7 @@ impl InputList {
                         line: src_line,
                         indent,
                         alt_idx: None,
+                        evaluated: false,
                     });
                 }
                 Ok(Event::Start(_)) => {
@@ -235,6 +241,7 @@ impl InputList {
                         line: src_line,
                         indent,
                         alt_idx: None,
+                        evaluated: false,
                     });
                     event_idx_stack.push(index);
                 }
@@ -249,6 +256,7 @@ impl InputList {
                         line: src_line,
                         indent,
                         alt_idx: start_idx,
+                        evaluated: false,
                     });
                 }
                 Ok(e) => events.push(InputEvent {
@@ -257,6 +265,7 @@ impl InputList {
                     line: src_line,
                     indent,
                     alt_idx: None,
+                    evaluated: false,
                 }),
                 Err(e) => {
                     return Err(SvgdxError::ParseError(format!(
@@ -720,6 +729,7 @@ impl TryFrom<InputEvent> for SvgElement {
                 element.set_indent(ev.indent);
                 element.set_src_line(ev.line);
                 element.set_order_index(&OrderIndex::new(ev.index));
+                element.evaluated = ev.evaluated;
                 Ok(element)
             }
             _ => Err(SvgdxError::DocumentError(format!(
